@@ -63,3 +63,15 @@ Proof.
     + rewrite src_navigate_core_eq, E. reflexivity.
   - rewrite src_navigate_core_eq. destruct (is_absolute_dest dest); reflexivity.
 Qed.
+
+(* URL.from_parts as it is in the source now: starting from cls() - the URL of
+   the empty text - it builds the model's from_parts *)
+Definition url0 : url := mkUrl [] false [] [] [] None [[]] [] [].
+
+Theorem src_from_parts_eq s h p q f po us pw :
+  url_of_text [] = Some url0 /\
+  src_from_parts url0 s h p q f po us pw = from_parts s h p q f po us pw.
+Proof.
+  split; [reflexivity|]. unfold src_from_parts, from_parts, url0, py_or_list, py_omd_update.
+  cbn. destruct p; reflexivity.
+Qed.
